@@ -124,7 +124,8 @@ def origin(annotation: tp.Any) -> tp.Any:
     if not isbuiltintype(actual):
         actual = _check_generics(actual)
 
-    if iscallable(actual):
+    # A class whose instances are callable is still a class, not a `Callable` annotation.
+    if actual is abc_Callable or (iscallable(actual) and not inspect.isclass(actual)):
         actual = tp.Callable
 
     return actual
